@@ -165,6 +165,12 @@ pub fn c11_strategy(_ctx: &Ctx) -> BoxedStrategy<C11Case> {
         root = Node::Un(op, Box::new(root));
       }
       root.renumber();
+      // one more thread that only reads Subscription::is_subscribed() a few times (as the
+      // crate's own tests do while they wait): it must not disturb anything
+      let mut threads = threads;
+      if lens[2] % 2 == 0 {
+        threads.push(vec![Action::IsSubscribed(0); 1 + lens[2]]);
+      }
       let case = Case { root, hots, hot_illformed: false, conn: None, conn_take: None, recorders: vec![vec![]], actions: vec![Action::Subscribe(0)] };
       C11Case { cc: ConcCase { case, threads, sched }, shape: shape.to_string(), scripts: out_items, take, agg }
     })
